@@ -9,6 +9,7 @@
 -/
 import Pongo.Model.Sets
 import Pongo.Gen.LockFacts
+import Pongo.Gen.LoadSites
 
 namespace Pongo.C20
 
@@ -173,6 +174,14 @@ theorem sets_independent (a b : CacheState) (op : CacheOp) :
 /-- every function that touches `templateCache` takes the set's mutex before
     the first access and releases it by `defer`; lookup and fill share one critical section -/
 theorem gen_lock_discipline : Gen.lockDiscipline.all (fun f => f.2) = true := by decide
+
+/-- a miss of `FromCache` loads the name it was given through the function in which every loader
+    resolves it (`fromFileFor`), and the `Debug` route through `FromFile`; neither passes on a
+    name resolved by the first loader -/
+theorem gen_cache_loads_by_given_name :
+    (Gen.loadSites.filter (·.1 == "TemplateSet.FromCache")) =
+      [("TemplateSet.FromCache", "TemplateSet.FromFile", "written"),
+       ("TemplateSet.FromCache", "TemplateSet.fromFileFor", "written")] := by decide
 
 /-! ### non-vacuity -/
 example :
